@@ -473,12 +473,13 @@ def cyclic_check(sc):
             return pred
 
     expr = _Quiet([]).steps(sc["path"])
-    t = time.time()
+    t = time.process_time()
     it = find(expr, d)
     got = []
     outcome = None
-    old = signal.signal(signal.SIGALRM, _alarm)
-    signal.alarm(int(sc.get("timeout", 30)))
+    # CPU seconds of this process (a hang burns CPU; a busy machine must not look like one)
+    old = signal.signal(signal.SIGVTALRM, _alarm)
+    signal.setitimer(signal.ITIMER_VIRTUAL, float(sc.get("timeout", 30)))
     try:
         for _ in range(sc["take"]):
             got.append(next(it))
@@ -490,18 +491,18 @@ def cyclic_check(sc):
     except RecursionError:
         return "RecursionError on a cyclic structure", True
     except _Hang:
-        return f"hangs: neither a result nor InfiniteLoopDetected within {sc.get('timeout', 30)} s", True
+        return f"hangs: neither a result nor InfiniteLoopDetected within {sc.get('timeout', 30)} CPU seconds", True
     except Exception as e:  # noqa
         if any(c == "InfiniteLoopDetected" for c in exc_chain(e)):
             outcome = "loop"
         else:
             return f"{type(e).__name__} on a cyclic structure", True
     finally:
-        signal.alarm(0)
-        signal.signal(signal.SIGALRM, old)
-    wall = time.time() - t
-    if wall > 20:
-        return f"took {wall:.1f}s", True
+        signal.setitimer(signal.ITIMER_VIRTUAL, 0)
+        signal.signal(signal.SIGVTALRM, old)
+    wall = time.process_time() - t
+    if wall > 0.75 * float(sc.get("timeout", 30)):
+        return f"took {wall:.1f} CPU seconds", True
     if sc["expect"] == "many":
         # the budget is per next(): an iterator whose results are each a few actions away must
         # keep delivering them however many it has delivered before
